@@ -21,6 +21,10 @@ Definition quiet (s : cstate) : Prop :=
 Definition pre_4039c3d_delete (w : Z) : list micro := [Exec w].
 Definition pre_ec39c3d_insert_many_failed (ups done : list Z) : list micro :=
   flat_map script_replace ups ++ [ExecMany done].
+(* insert_many before a00ceb1: every upsert went through replace() and was a counted block
+   of its own; the new rows were counted separately *)
+Definition pre_a00ceb1_insert_many (ups rows : list Z) : list micro :=
+  flat_map script_replace ups ++ [ExecMany rows; CondCommit (Z.of_nat (length rows))].
 
 Definition bucket_op (o : op) : Prop :=
   match o with CreateBucket _ | UpdateBucket _ | DeleteBucket _ _ => True | _ => False end.
@@ -32,15 +36,32 @@ Definition atomic_op (o : op) : Prop := bucket_op o \/ single_event_op o.
 
 (* scripts that keep the bookkeeping in step with the open transaction: every statement
    is counted by the conditional_commit that follows it, or followed by a commit *)
+Definition is_write (m : micro) : Prop :=
+  match m with Exec _ | ExecMany _ => True | _ => False end.
+
+(* [q_block]: any number of write statements, then ONE conditional_commit that counts at
+   least as many (insert_many since a00ceb1: all upserts and the bulk INSERT; a single-event
+   write: one statement, count 1) *)
 Inductive qscript : list micro -> Prop :=
   | q_nil : qscript []
   | q_read : forall ms, qscript ms -> qscript (Read :: ms)
   | q_commit : forall ms, qscript ms -> qscript (Commit :: ms)
-  | q_exec : forall w ms, qscript ms -> qscript (Exec w :: CondCommit 1 :: ms)
-  | q_many : forall ws k ms, Z.of_nat (length ws) <= k -> qscript ms ->
-      qscript (ExecMany ws :: CondCommit k :: ms)
+  | q_block : forall pre k ms, Forall is_write pre -> Z.of_nat (length (writes_of pre)) <= k ->
+      qscript ms -> qscript (pre ++ CondCommit k :: ms)
   | q_bucket1 : forall w ms, qscript ms -> qscript (Exec w :: Commit :: ms)
   | q_bucket2 : forall w1 w2 ms, qscript ms -> qscript (Exec w1 :: Exec w2 :: Commit :: ms).
+
+Lemma q_exec : forall w ms, qscript ms -> qscript (Exec w :: CondCommit 1 :: ms).
+Proof.
+  intros w ms H. apply (q_block [Exec w] 1 ms); [repeat constructor|cbn; lia|exact H].
+Qed.
+
+Lemma q_many : forall ws k ms, Z.of_nat (length ws) <= k -> qscript ms ->
+  qscript (ExecMany ws :: CondCommit k :: ms).
+Proof.
+  intros ws k ms Hk H. apply (q_block [ExecMany ws] k ms); [repeat constructor| |exact H].
+  cbn. rewrite app_nil_r. exact Hk.
+Qed.
 
 (* ---- lists ---- *)
 
@@ -71,6 +92,32 @@ Proof. intros. unfold run. apply fold_left_app. Qed.
 
 Lemma run_cons : forall lazy mc tr s, run lazy s (mc :: tr) = run lazy (micro_step lazy s mc) tr.
 Proof. reflexivity. Qed.
+
+(* a run of write statements only appends to the open transaction *)
+Lemma add_pending_nil : forall s, add_pending s [] = s.
+Proof. intros [c p n l]. unfold add_pending. cbn. rewrite app_nil_r. reflexivity. Qed.
+
+Lemma add_pending_app : forall s a b, add_pending (add_pending s a) b = add_pending s (a ++ b).
+Proof. intros. unfold add_pending. cbn. rewrite app_assoc. reflexivity. Qed.
+
+Lemma run_writes : forall lazy tr s,
+  Forall is_write (map fst tr) -> run lazy s tr = add_pending s (twrites tr).
+Proof.
+  intros lazy tr. induction tr as [|[m c] tr IH]; intros s H.
+  - cbn. symmetry. apply add_pending_nil.
+  - cbn [map fst] in H. inversion H as [|? ? Hm Hr]; subst.
+    rewrite run_cons, IH by exact Hr. unfold micro_step. cbn [fst].
+    destruct m; cbn in Hm; try contradiction; rewrite add_pending_app; reflexivity.
+Qed.
+
+(* a trace of [pre ++ CondCommit k :: ms] *)
+Lemma map_fst_block : forall (tr : list (micro * clk)) pre k ms,
+  map fst tr = pre ++ CondCommit k :: ms ->
+  exists tpre c tr', tr = tpre ++ (CondCommit k, c) :: tr' /\ map fst tpre = pre /\ map fst tr' = ms.
+Proof.
+  intros tr pre k ms H. apply map_fst_app in H. destruct H as (ta & tb & -> & Ha & Hb).
+  apply map_fst_cons in Hb. destruct Hb as (c & tr' & -> & Hb). eauto 6.
+Qed.
 
 (* ---- commit / conditional_commit ---- *)
 
@@ -241,21 +288,18 @@ Qed.
 Lemma qscript_quiet : forall ms, qscript ms ->
   forall lazy tr s, map fst tr = ms -> quiet s -> quiet (run lazy s tr).
 Proof.
-  induction 1 as [|ms Hq IH|ms Hq IH|w ms Hq IH|ws k ms Hk Hq IH|w ms Hq IH|w1 w2 ms Hq IH];
+  induction 1 as [|ms Hq IH|ms Hq IH|pre k ms Hpre Hk Hq IH|w ms Hq IH|w1 w2 ms Hq IH];
     intros lazy tr s Htr Hs.
   - destruct tr; [exact Hs|discriminate].
   - apply map_fst_cons in Htr. destruct Htr as (c & tr' & -> & Htr).
     rewrite run_cons. apply IH; assumption.
   - apply map_fst_cons in Htr. destruct Htr as (c & tr' & -> & Htr).
     rewrite run_cons. apply IH; [assumption|]. apply quiet_after_commit.
-  - apply map_fst_cons in Htr. destruct Htr as (c1 & tr1 & -> & Htr).
-    apply map_fst_cons in Htr. destruct Htr as (c2 & tr2 & -> & Htr).
-    rewrite !run_cons. apply IH; [assumption|].
-    unfold micro_step. cbn [fst snd]. apply quiet_block; [assumption|cbn; lia].
-  - apply map_fst_cons in Htr. destruct Htr as (c1 & tr1 & -> & Htr).
-    apply map_fst_cons in Htr. destruct Htr as (c2 & tr2 & -> & Htr).
-    rewrite !run_cons. apply IH; [assumption|].
-    unfold micro_step. cbn [fst snd]. apply quiet_block; assumption.
+  - apply map_fst_block in Htr. destruct Htr as (tpre & c & tr' & -> & Hmpre & Htr).
+    rewrite run_app, run_cons. apply IH; [assumption|].
+    rewrite run_writes by (rewrite Hmpre; exact Hpre).
+    unfold micro_step. cbn [fst snd]. apply quiet_block; [assumption|].
+    unfold twrites. rewrite Hmpre. exact Hk.
   - apply map_fst_cons in Htr. destruct Htr as (c1 & tr1 & -> & Htr).
     apply map_fst_cons in Htr. destruct Htr as (c2 & tr2 & -> & Htr).
     rewrite !run_cons. apply IH; [assumption|].
@@ -269,23 +313,38 @@ Qed.
 
 Lemma qscript_app : forall a b, qscript a -> qscript b -> qscript (a ++ b).
 Proof.
-  intros a b Ha Hb. induction Ha; cbn [app]; try (constructor; assumption). exact Hb.
+  intros a b Ha Hb. induction Ha; cbn [app]; try (constructor; assumption).
+  - exact Hb.
+  - rewrite <- app_assoc. cbn [app]. apply q_block; assumption.
 Qed.
 
-Lemma qscript_upserts : forall ups ms, qscript ms -> qscript (flat_map script_replace ups ++ ms).
+Lemma upserts_are_writes : forall ups, Forall is_write (flat_map script__replace ups).
+Proof. induction ups as [|u ups IH]; cbn; constructor; [exact I|exact IH]. Qed.
+
+Lemma writes_of_upserts : forall ups, writes_of (flat_map script__replace ups) = ups.
+Proof. induction ups as [|u ups IH]; [reflexivity|]. cbn. f_equal. exact IH. Qed.
+
+(* insert_many (also the path on which a statement raises): the upserts and the bulk
+   statement are one block, counted by the conditional_commit of the finally clause *)
+Lemma qscript_bulk : forall ups ws k, Z.of_nat (length ups + length ws) <= k ->
+  qscript (flat_map script__replace ups ++ [ExecMany ws; CondCommit k]).
 Proof.
-  intros ups ms H. induction ups as [|u ups IH]; [exact H|].
-  cbn [flat_map script_replace app]. apply q_exec. exact IH.
+  intros ups ws k Hk.
+  change (flat_map script__replace ups ++ [ExecMany ws; CondCommit k])
+    with (flat_map script__replace ups ++ [ExecMany ws] ++ CondCommit k :: []).
+  rewrite app_assoc. apply q_block; [| |apply q_nil].
+  - apply Forall_app. split; [apply upserts_are_writes|repeat constructor].
+  - rewrite writes_of_app, writes_of_upserts. cbn. rewrite app_nil_r, app_length. exact Hk.
 Qed.
 
 Lemma qscript_expand : forall o, qscript (expand o).
 Proof.
-  destruct o; cbn [expand script_replace script_get_metadata app];
+  destruct o; cbn [expand script_replace script__replace script_get_metadata app];
     repeat (first [apply q_nil | apply q_read | apply q_commit | apply q_exec
                   | apply q_bucket1 | apply q_bucket2]).
-  - apply qscript_upserts. apply q_many; [lia|apply q_nil].
+  - apply qscript_bulk. lia.
   - destruct limit0; repeat constructor.
-  - apply qscript_upserts. apply q_many; [lia|apply q_nil].
+  - apply qscript_bulk. rewrite app_length || idtac. lia.
 Qed.
 
 Lemma qscript_expand_all : forall h, qscript (expand_all h).
